@@ -121,6 +121,26 @@ def run(ctx):
     payloads = [{"kinds": [k], "hists": ih[i::3]} for k in kinds_i for i in range(3) if ih[i::3]]
     for res in ctx.harness_parallel("interleave_replay.py", payloads, procs=16, timeout=3000):
         ctx.absorb(res)
+    # ---- (D) thorough tier: whole user sessions (Session.tla), the clauses that are C08's: every object obtained by any sequence of
+    #      calls is the state of its own trajectory at its own tick (propagation is a pure function of orbit and date)
+    if thorough:
+        import importlib.util
+        import os as _os
+        spec_ = importlib.util.spec_from_file_location("extras_session", _os.path.join(_os.path.dirname(_os.path.dirname(_os.path.abspath(__file__))), "extras", "session.py"))
+        ses = importlib.util.module_from_spec(spec_)
+        spec_.loader.exec_module(ses)
+        tot = ses.collect(ctx, 600, verbose=False)
+        mine = ("session/state", "session/ephem-nodes", "session/raises[propagate]", "session/raises[tabulate]", "session/raises[interpolate]", "session/heap")
+        for k, v in tot["clauses"].items():
+            if "trajectory" in k or "nodes of its range" in k:
+                ctx.clause("sessions (Session.tla): " + k, v["checked"], v["failed"])
+        for v in tot["violations"]:
+            if v["key"] in mine:
+                ctx.violation(v["key"], v["what"], v["data"])
+        ctx.extra["session"] = {"behaviours": tot["behaviours"], "calls": tot["evaluations"],
+                                "other_clauses_reported_by_extras_only": sorted({v["key"] for v in tot["violations"] if v["key"] not in mine})}
+        ctx.traces += tot["behaviours"]
+        ctx.evaluations += tot["evaluations"]
     # ---- the repository's own test-suite, trace-validated (SuiteTrace.tla / RoutingTrace.tla) -----------------------------
     from checks import suite
     suite.run(ctx, "C08", "iter")
